@@ -106,7 +106,9 @@ Qed.
 Definition dia (o : opts) : dialect := mkDialect (o_neg o).
 
 (* a Go slice is shorter than 2^63 *)
-Definition len_ok {A} (l : list A) : Prop := Z.of_nat (length l) < int64_max.
+(* numeric reference tokens fit a 64-bit integer (strconv.Atoi); a condition on the patch *)
+Definition tok_small (t : bytes) : Prop :=
+  (forall n, canonical_nat t = Some n -> n <= int64_max) /\ (forall k, canonical_neg t = Some k -> k <= int64_max).
 
 Lemma zlen_eq {A} (l : list A) : ImplV5.zlen l = Rfc6902.zlen l.
 Proof. reflexivity. Qed.
@@ -119,13 +121,13 @@ Definition tok_canonical (t : bytes) : Prop :=
   (exists n, canonical_nat t = Some n) \/ (exists k, canonical_neg t = Some k).
 
 Theorem resolve_idx_get_ref o {A} (l : list A) t :
-  len_ok l -> tok_canonical t ->
+  tok_small t -> tok_canonical t ->
   match idx_existing (dia o) (Rfc6902.zlen l) t with
   | Some i => resolve_idx_get o (ImplV5.zlen l) t = Ok i /\ (i < length l)%nat
   | None => exists e, resolve_idx_get o (ImplV5.zlen l) t = Err e /\ (e = EInvalidIndex \/ e = EAtoi)
   end.
 Proof.
-  intros L [[n Hn]|[k Hk]]; unfold idx_existing, resolve_idx_get, len_ok, Rfc6902.zlen, ImplV5.zlen, dia in *; simpl.
+  intros L [[n Hn]|[k Hk]]; [pose proof (proj1 L _ Hn) as Sm | pose proof (proj2 L _ Hk) as Sm]; unfold idx_existing, resolve_idx_get, Rfc6902.zlen, ImplV5.zlen, dia in *; simpl.
   - rewrite Hn. pose proof (canonical_nat_digits _ _ Hn) as [_ [N0 _]].
     destruct (n <? Z.of_nat (length l)) eqn:E.
     + apply Z.ltb_lt in E. rewrite (atoi_canonical_nat _ _ Hn) by lia.
@@ -173,13 +175,13 @@ Proof.
 Qed.
 
 Theorem ary_add_ref o (ns : list node) t v :
-  len_ok ns -> add_tok t ->
+  tok_small t -> add_tok t ->
   match idx_insert (dia o) (Rfc6902.zlen ns) t with
   | Some i => ary_add o ns t v = Ok (insert_at i v ns) /\ (i <= length ns)%nat
   | None => exists e, ary_add o ns t v = Err e /\ (e = EInvalidIndex \/ e = EAtoi)
   end.
 Proof.
-  intros L [->|[[n Hn]|[k Hk]]]; unfold idx_insert, ary_add, len_ok, Rfc6902.zlen, ImplV5.zlen, dia, insert_at in *; simpl.
+  intros L [->|[[n Hn]|[k Hk]]]; [| pose proof (proj1 L _ Hn) as Sm | pose proof (proj2 L _ Hk) as Sm]; unfold idx_insert, ary_add, Rfc6902.zlen, ImplV5.zlen, dia, insert_at in *; simpl.
   - split; [|lia]. rewrite Nat2Z.id. now rewrite firstn_all, skipn_all.
   - rewrite (canonical_not_dash _ _ Hn), Hn. pose proof (canonical_nat_digits _ _ Hn) as [_ [N0 _]].
     destruct (n <=? Z.of_nat (length ns)) eqn:E.
@@ -217,13 +219,13 @@ Qed.
 
 (* ---- remove (AllowMissingPathOnRemove off) ---- *)
 Theorem ary_remove_ref o (ns : list node) t :
-  o_allow o = false -> len_ok ns -> tok_canonical t ->
+  o_allow o = false -> tok_small t -> tok_canonical t ->
   match idx_existing (dia o) (Rfc6902.zlen ns) t with
   | Some i => ary_remove o ns t = Ok (remove_at i ns) /\ (i < length ns)%nat
   | None => exists e, ary_remove o ns t = Err e /\ (e = EInvalidIndex \/ e = EAtoi)
   end.
 Proof.
-  intros Al L [[n Hn]|[k Hk]]; unfold idx_existing, ary_remove, len_ok, Rfc6902.zlen, ImplV5.zlen, dia, remove_at in *; simpl; rewrite Al.
+  intros Al L [[n Hn]|[k Hk]]; [pose proof (proj1 L _ Hn) as Sm | pose proof (proj2 L _ Hk) as Sm]; unfold idx_existing, ary_remove, Rfc6902.zlen, ImplV5.zlen, dia, remove_at in *; simpl; rewrite Al.
   - rewrite Hn. pose proof (canonical_nat_digits _ _ Hn) as [_ [N0 _]].
     destruct (n <? Z.of_nat (length ns)) eqn:E.
     + apply Z.ltb_lt in E. rewrite (atoi_canonical_nat _ _ Hn) by lia.
